@@ -1,8 +1,10 @@
 """C03: exactly the selected tests run, once each, and every mode agrees."""
 import copy
+import os
 import random
 
 import corecheck
+import runlib
 import worlds
 
 FAM = {'C03'}
@@ -146,7 +148,15 @@ def run(chk, tier, seed, replay=None):
                 l['tearDown'] = 'notimpl'
                 cid = c['id'] + 'resume'
                 w2['id'] = cid
-                cases.append({'id': cid, 'world': w2, 'o': dict(o), 'mode': 'cli'})
+                rc = {'id': cid, 'world': w2, 'o': dict(o), 'mode': 'cli'}
+                if rng.random() < 0.5:
+                    # the search path is given relative to the start directory and the tests
+                    # run in the parent wander off: children must still find the same tests
+                    rc['cli_kw'] = {'path_dir': os.path.basename(runlib.WORLD_DIR),
+                                    'cwd': os.path.dirname(runlib.WORLD_DIR)}
+                    for t in w2['tests'].values():
+                        t['body'] = [{'a': 'chdir'}] + list(t.get('body', ()))
+                cases.append(rc)
                 group.append(cid)
                 break
         for g in group:
